@@ -308,10 +308,10 @@ class C16(Check):
 
         def to_seconds(x):
             x = str(x)
-            m = re.fullmatch(r"(-)?P(?:(\d+)D)?(?:T(?:(\d+)H)?(?:(\d+)M)?(?:(\d+(?:\.\d+)?)S)?)?", x)
+            m = re.fullmatch(r"(-)?P(?:(\d+)Y)?(?:(\d+)D)?(?:T(?:(\d+)H)?(?:(\d+)M)?(?:(\d+(?:\.\d+)?)S)?)?", x)
             if m:
-                sign, dd, hh, mm, ss = m.groups()
-                tot = int(dd or 0) * 86400 + int(hh or 0) * 3600 + int(mm or 0) * 60 + float(ss or 0)
+                sign, yy, dd, hh, mm, ss = m.groups()   # pydantic writes 365-day "years"
+                tot = (int(yy or 0) * 365 + int(dd or 0)) * 86400 + int(hh or 0) * 3600 + int(mm or 0) * 60 + float(ss or 0)
                 return -tot if sign else tot
             m = re.fullmatch(r"(?:(-?\d+) days?, )?(\d+):(\d\d):(\d\d(?:\.\d+)?)", x)
             if m:
